@@ -26,6 +26,7 @@ import (
 	"verif.local/explore"
 	"verif.local/harness/hx"
 	"verif.local/vrt"
+	"verif.local/vrt/vctx"
 )
 
 // ---------------------------------------------------------------- resources
@@ -111,6 +112,7 @@ type grabber struct {
 }
 
 func (g *grabber) Destroy(ctx context.Context, p resource.Pointer, opts ...state.DestroyOption) error {
+	vrt.TouchKey("tx.grabber", true)
 	if p.Type() == BType && !g.done && vrt.Choose(2, "third party grabs the output before Destroy") == 1 {
 		g.done = true
 		if err := state.WrapCore(g.CoreState).AddFinalizer(ctx, p, "third"); err != nil {
@@ -135,6 +137,7 @@ type actor struct {
 }
 
 func doOp(ctx context.Context, st state.State, op string, act *actor) {
+	vrt.TouchKey("tx.actor", true) // act.errs / act.blocked are shared with the tdd goroutines
 	f := strings.Fields(op)
 	id := ""
 	if len(f) > 1 {
@@ -166,12 +169,17 @@ func doOp(ctx context.Context, st state.State, op string, act *actor) {
 	case "teardown":
 		_, err := st.Teardown(ctx, aPtr(id))
 		ignore(err)
+	case "destroy": // a plain Destroy: refused while a finalizer is pending
+		if err := st.Destroy(ctx, aPtr(id)); err != nil && !state.IsNotFoundError(err) && !strings.Contains(err.Error(), "finalizers") {
+			ignore(err)
+		}
 	case "rmext":
 		ignore(st.RemoveFinalizer(ctx, aPtr(id), "ext"))
 	case "tdd": // TeardownAndDestroy blocks until the finalizers are gone: own goroutine
 		act.blocked[id] = true
 		vrt.GoNamed("tdd:"+id, func() {
 			err := st.TeardownAndDestroy(ctx, aPtr(id))
+			vrt.TouchKey("tx.actor", true)
 			ignore(err)
 			act.blocked[id] = false
 		})
@@ -193,6 +201,8 @@ var errTransient = errors.New("transient transform error")
 
 func register(rt *runtime.Runtime, c Cfg, invocations *int) error {
 	xform := func(in *A, out *B) error {
+		vrt.Yield() // a transform takes time: whatever the actor does meanwhile lands inside the reconcile
+		vrt.TouchKey("tx.invocations", true)
 		*invocations++
 		if *invocations <= c.FailFirst {
 			return errTransient
@@ -268,7 +278,7 @@ func BPtr(id string) resource.Pointer { return bPtr("out-" + id) }
 
 // Body runs one execution; prop selects which oracle's failures are reported ("C06" or "C07").
 func Body(c Cfg, prop string, x *explore.X) {
-	ctx, cancel := context.WithCancel(context.Background())
+	ctx, cancel := vctx.WithCancel(context.Background())
 	log := &hx.Log{}
 	var core state.CoreState = hx.NewNamespaced(log)
 	if c.GrabAtDestroy {
@@ -302,14 +312,39 @@ func Body(c Cfg, prop string, x *explore.X) {
 		}
 		vrt.FireNextTimer()
 	}
+	vrt.TouchKey("tx.actor", true)
 	if len(act.errs) > 0 {
 		x.FailKey("harness/"+c.Name, "external actor errors: %v", act.errs)
 	}
-	final := log.StateAt(log.Len())
+	// the quiescent state is read from the store itself (what callers see), not derived from the commit log
+	final := map[string]resource.Resource{}
+	for _, typ := range []resource.Type{AType, BType} {
+		l, err := st.List(ctx, resource.NewMetadata(hx.NS, typ, "", resource.VersionUndefined))
+		if err != nil {
+			panic(err)
+		}
+		for _, r := range l.Items {
+			final[string(typ)+"/"+string(r.Metadata().ID())] = r
+		}
+	}
 	if prop == "C06" {
 		checkConvergence(c, x, final, act)
 	} else {
 		checkOrdering(c, x, log)
+		// ... and the consequence, on what the store holds now: no owned output without its guarded input
+		if c.usesInputFinalizers() {
+			for k, out := range final {
+				if !strings.HasPrefix(k, string(BType)+"/") || out.Metadata().Owner() != ctrlName {
+					continue
+				}
+				in := final[string(AType)+"/"+strings.TrimPrefix(string(out.Metadata().ID()), "out-")]
+				if in == nil {
+					x.FailKey("order/input-destroyed-before-output", "%s: at quiescence the store holds the output %s but its input is gone", c.Name, snap(out))
+				} else if !in.Metadata().Finalizers().Has(ctrlName) {
+					x.FailKey("order/output-without-input-finalizer", "%s: at quiescence the store holds the output %s while its input %s does not carry the controller's finalizer", c.Name, snap(out), snap(in))
+				}
+			}
+		}
 	}
 	outs := 0
 	for k := range final {
@@ -411,6 +446,7 @@ func checkConvergence(c Cfg, x *explore.X, final map[string]resource.Resource, a
 func checkOrdering(c Cfg, x *explore.X, log *hx.Log) {
 	cur := map[string]resource.Resource{}
 	tdSeen := map[string]bool{}
+	guarded := map[string]bool{} // cleanup flavour: this incarnation of the input has carried the cleaner's finalizer
 	for i, e := range log.Entries {
 		key := string(e.Type) + "/" + string(e.ID)
 		prev := cur[key]
@@ -447,8 +483,15 @@ func checkOrdering(c Cfg, x *explore.X, log *hx.Log) {
 		case AType:
 			outKey := string(BType) + "/out-" + string(e.ID)
 			out := cur[outKey]
+			if !e.Destroy && e.Res.Metadata().Finalizers().Has("cleaner") {
+				guarded[key] = true
+			}
 			if e.Destroy {
-				if out != nil && out.Metadata().Owner() == ctrlName && (c.usesInputFinalizers() || c.Flavour == "cleanup") {
+				// a cleanup controller guards an input from the moment it has put its finalizer on it (it is not
+				// the controller that creates the outputs, so an input destroyed before that is nobody's promise)
+				wasGuarded := guarded[key]
+				delete(guarded, key)
+				if out != nil && out.Metadata().Owner() == ctrlName && (c.usesInputFinalizers() || (c.Flavour == "cleanup" && wasGuarded)) {
 					x.FailKey("order/input-destroyed-before-output", "%s: %s: the input disappeared while its derived output %s still exists", c.Name, at, snap(out))
 				}
 				continue
@@ -482,6 +525,7 @@ func scripts(thorough bool) map[string][]string {
 		"output-held-by-thirdparty": {"create a", "outfin a", "tdd a", "outrmfin a"},
 		"external-output-teardown":  {"create a", "outteardown a", "update a"},
 		"teardown-only":             {"create a", "teardown a"},
+		"create-destroy":            {"create a", "destroy a"},
 	}
 	if thorough {
 		s["create-update-update-tdd"] = []string{"create a", "update a", "update a", "tdd a"}
@@ -506,7 +550,7 @@ func Build(prop, tier string) []explore.Scenario {
 		names = append(names, n)
 	}
 	sort.Strings(names)
-	quickScripts := map[string]bool{"create-update": true, "create-tdd": true, "teardown-only": true, "output-held-by-thirdparty": true, "create-tdd-recreate": true}
+	quickScripts := map[string]bool{"create-update": true, "create-tdd": true, "create-destroy": true, "teardown-only": true, "output-held-by-thirdparty": true, "create-tdd-recreate": true}
 	for _, fl := range []string{"transform", "transform-fin", "transform-ignoretd", "qtransform", "cleanup"} {
 		for _, n := range names {
 			if prop == "C07" && fl == "transform-ignoretd" {
@@ -515,7 +559,13 @@ func Build(prop, tier string) []explore.Scenario {
 			if !thorough && !quickScripts[n] {
 				continue
 			}
-			cfgs = append(cfgs, Cfg{Name: fl + "/" + n, Flavour: fl, Script: sc[n], Bounds: b})
+			bb := b
+			if n == "create-destroy" && fl != "cleanup" {
+				// small enough for two preemptions: a plain Destroy racing with the controller's first
+				// finalizer needs one in each of them
+				bb = []int{0, 1, 2}
+			}
+			cfgs = append(cfgs, Cfg{Name: fl + "/" + n, Flavour: fl, Script: sc[n], Bounds: bb})
 		}
 		cfgs = append(cfgs, Cfg{Name: fl + "/create-update/transient-error", Flavour: fl, Script: []string{"create a", "update a"}, FailFirst: 1, Bounds: b})
 	}
@@ -535,7 +585,7 @@ func Build(prop, tier string) []explore.Scenario {
 			Cfg{Name: fl + "/seen-tearing-down/tdd", Flavour: fl, Script: []string{"createtd a", "tdd a", "rmext a"}, Bounds: b},
 		)
 	}
-	maxExecs := 60000
+	maxExecs := 40000
 	if thorough {
 		maxExecs = 4000000
 	}
@@ -547,6 +597,7 @@ func Build(prop, tier string) []explore.Scenario {
 			Desc:     fmt.Sprintf("real runtime + real %s controller (A -> B), external actor script %v, first %d transform invocations fail; free switches at every external operation and inside the pipeline", c.Flavour, c.Script, c.FailFirst),
 			Bounds:   c.Bounds,
 			MaxExecs: maxExecs,
+			HB:       true,
 			Body:     func(x *explore.X) { Body(c, prop, x) },
 		})
 	}
